@@ -57,11 +57,66 @@ def _own_rng(case):
         pass
 
 
+def _exec_pair(mod, case):
+    """Cross-case history: operation B of the property's own case list,
+    executed after operation A in the same interpreter, against B executed as
+    the first call of a pristine interpreter (forked from this process before
+    anything ran).  Reported: every assertion of B that fails after A but
+    holds in the pristine interpreter; and, where the module declares
+    PAIR_FP_STRICT (the property is quantified over histories and the
+    fingerprint is a digest of observed values), a fingerprint that differs."""
+    from lib import fork_call
+    a, b = case["_pair"]
+
+    def run(c):
+        _own_rng(c)
+        r = mod.run_case(c) or {}
+        return {"checks": sorted({v["check"] for v in r.get("viol", [])}),
+                "viol": [{"check": v["check"], "msg": str(v.get("msg"))[:400]}
+                         for v in r.get("viol", [])],
+                "fp": r.get("fp"), "trans": int(r.get("trans", 1)),
+                "outcome": r.get("outcome", "ok")}
+    st, ref = fork_call(run, b, timeout=case.get("_timeout", 600))
+    if st != "ok":
+        # B cannot be observed alone (it aborts / raises in the harness): its
+        # own case reports that; nothing to compare here
+        return {"viol": [], "fp": "pair-ref-%s" % st, "trans": 1,
+                "outcome": "pair-ref-unavailable", "nontrivial": False}
+    try:
+        ra = run(a)
+    except BaseException as e:            # noqa
+        if isinstance(e, (KeyboardInterrupt, SystemExit)):
+            raise
+        ra = {"trans": 1, "fp": "exc"}
+    rb = run(b)
+    viol = []
+    for v in rb["viol"]:
+        if v["check"] not in ref["checks"]:
+            viol.append({"check": "after-history:" + v["check"],
+                         "msg": "holds when case %s is the first call of an "
+                                "interpreter, fails after case %s: %s" %
+                                (b["id"], a["id"], v["msg"])})
+    fp_same = rb["fp"] == ref["fp"]
+    if not fp_same and getattr(mod, "PAIR_FP_STRICT", False) and not viol \
+            and not ref["checks"]:
+        viol.append({"check": "after-history:observations-differ",
+                     "msg": "the values observed by case %s differ from those "
+                            "of the same case in a pristine interpreter after "
+                            "case %s ran" % (b["id"], a["id"])})
+    return {"viol": viol, "fp": "%s|%s" % (ra.get("fp"), rb["fp"]),
+            "trans": ref["trans"] + ra.get("trans", 1) + rb["trans"],
+            "outcome": "ok", "metrics": {"pair-fp-changed": 0.0 if fp_same
+                                         else 1.0}}
+
+
 def _exec_case(mod, case):
     t0 = time.time()
     try:
-        _own_rng(case)
-        res = mod.run_case(case)
+        if "_pair" in case:
+            res = _exec_pair(mod, case)
+        else:
+            _own_rng(case)
+            res = mod.run_case(case)
         if res is None:
             res = {}
     except BaseException as e:            # harness or unexpected error
@@ -350,6 +405,26 @@ def drive(prop, tier, seed, stage_dir, only_case=None, nworkers=None):
     pool = Pool(modname, nworkers, isolate, timeout, logdir)
     try:
         results = pool.run(cases, prog)
+        npairs = 0
+        pair_alpha = []
+        cases0, results0 = cases, results
+        # cross-case histories: thorough tier (VERIF_PAIRS=1 forces them
+        # in the quick tier, too)
+        if only_case is None and isolate == "fork" and \
+                getattr(mod, "PAIR_HISTORY", True) and \
+                not os.environ.get("VERIF_NO_PAIRS") and \
+                (tier != "quick" or os.environ.get("VERIF_PAIRS")):
+            pair_alpha = _pair_alphabet(cases, results, tier, nworkers,
+                                        getattr(mod, "PAIR_HISTORY", True))
+            pcases = [{"id": "pair:%s=>%s" % (a["id"], b["id"]),
+                       "kind": "pair-history", "_pair": [a, b],
+                       "_timeout": 900}
+                      for a in pair_alpha for b in pair_alpha]
+            if pcases:
+                presults = pool.run(pcases, prog)
+                cases = cases + pcases
+                results = results + presults
+                npairs = len(pcases)
         # ---- decide ------------------------------------------------------
         died_is_violation = getattr(mod, "DEATH_IS_VIOLATION", True)
         raw = []       # (case index, violation dict)
@@ -462,6 +537,13 @@ def drive(prop, tier, seed, stage_dir, only_case=None, nworkers=None):
                                            k["case"]) for _, _, k in knowns}),
         "workers": nworkers,
         "isolation": isolate,
+        "pair_histories": npairs,
+        "pair_history_alphabet": [c["id"] for c in pair_alpha],
+        "pair_history_rule": "every ordered pair (A, B), A = B included, of "
+        "the listed cases in one interpreter: each assertion of B that holds "
+        "in a pristine interpreter must hold after A%s" % (
+            "; the observed values must be identical, too"
+            if getattr(mod, "PAIR_FP_STRICT", False) else ""),
         "confirm_reruns": len(to_confirm[:cap]) if raw else 0,
         "slowest_cases": [[c["id"], round(r.get("wall", 0.0), 2)] for c, r in
                           sorted(zip(cases, results),
@@ -470,7 +552,7 @@ def drive(prop, tier, seed, stage_dir, only_case=None, nworkers=None):
     }
     if hasattr(mod, "coverage_extra"):
         try:
-            cov.update(jsonable(mod.coverage_extra(cases, results)))
+            cov.update(jsonable(mod.coverage_extra(cases0, results0)))
         except Exception as e:
             cov["coverage_extra_error"] = repr(e)
     ev = {
@@ -511,6 +593,57 @@ def drive(prop, tier, seed, stage_dir, only_case=None, nworkers=None):
           (prop, tier, len(cases), trans, len(fps), len(by_case),
            len(seenk), time.time() - t_start))
     return 1 if by_case else 0
+
+
+def _pair_alphabet(cases, results, tier, nworkers, cfg):
+    """Operations of the cross-case history layer: cases that ran to a normal
+    end, one per kind first (kind = id up to the first ':'), then further
+    ones spread over each kind, as many as fit a CPU budget (every ordered
+    pair, including a case after itself, costs about wall(A) + 2 wall(B))."""
+    budget = (20.0 if tier == "quick" else 150.0) * nworkers
+    kmax = 12 if tier == "quick" else 30
+    if isinstance(cfg, dict):
+        budget = cfg.get("budget_" + tier, budget / nworkers) * nworkers
+        kmax = cfg.get("k_" + tier, kmax)
+    cap = 2.0 if tier == "quick" else 10.0
+    groups = {}
+    for c, r in zip(cases, results):
+        if r.get("outcome") in ("INTERPRETER_TERMINATED", "HANG",
+                                "exception"):
+            continue
+        if r.get("wall", 0.0) > cap or "_pair" in c:
+            continue
+        groups.setdefault(c["id"].split(":")[0], []).append((c, r["wall"]))
+    order = []
+    rank = 0
+    while len(order) < kmax and groups:
+        progressed = False
+        for g in sorted(groups):
+            lst = groups[g]
+            # positions 0, last, middle, quartiles ... of each kind
+            picks = [0, len(lst) - 1, len(lst) // 2, len(lst) // 4,
+                     3 * len(lst) // 4, len(lst) // 8, 7 * len(lst) // 8]
+            seen = []
+            for p in picks:
+                if p not in seen:
+                    seen.append(p)
+            if rank < len(seen):
+                order.append(lst[seen[rank]])
+                progressed = True
+        rank += 1
+        if not progressed:
+            break
+    # drop duplicates, keep order
+    sel, ids = [], set()
+    for c, w in order:
+        if c["id"] not in ids:
+            ids.add(c["id"])
+            sel.append((c, w))
+    sel = sel[:kmax]
+    while len(sel) > 1 and 3.0 * len(sel) * sum(w for _, w in sel) > budget:
+        # too expensive: drop the slowest
+        sel.remove(max(sel, key=lambda t: t[1]))
+    return [c for c, _ in sel]
 
 
 def _pick_samples(cases, k=5):
